@@ -1,9 +1,63 @@
 """C02 — no spurious or duplicated matches; no WHERE = cross product. Same sweep as C01, judged for
-extra / duplicated / wrongly-typed combinations."""
+extra / duplicated / wrongly-typed combinations; plus large cross products (thousands of combinations), where
+every combination must still be reported exactly once."""
+import collections, os, shutil
+from vlib import common as C
 from checks import c01
 
 LEAN_MODULES = ["Cpf.Props.C02"]
 
 
+def big_project(root, n):
+    os.makedirs(os.path.join(root, "src"), exist_ok=True)
+    for c in range(2):
+        body = "".join("    int m%d_%d(int a) { int v%d_%d = a; return a; }\n" % (c, i, c, i) for i in range(n))
+        open(os.path.join(root, "src", "Big%d.java" % c), "w").write("class Big%d {\n%s}\n" % (c, body))
+
+
+def large_products(run):
+    """cross products well beyond a few thousand combinations, with and without a WHERE that holds for all / for a
+    known slice: counts and multiplicities are known in closed form"""
+    h = C.Harness()
+    root = C.scratch("c02big")
+    stats = collections.Counter()
+    try:
+        n = 36 if run.depth == "quick" else 70           # 2n methods x 2n variables = 5184 / 19600 combinations
+        big_project(root, n)
+        r = h.call(op="scan", dir=root, graph="big", timeout=300)
+        meth = [x for x in r["nodes"] if x["type"] == "method_declaration"]
+        var = [x for x in r["nodes"] if x["type"] == "variable_declaration"]
+        cases = [("FROM method_declaration AS a, variable_declaration AS b SELECT a.getName()", len(meth) * len(var)),
+                 ("FROM variable_declaration AS b, method_declaration AS a SELECT a.getName()", len(meth) * len(var)),
+                 ('FROM method_declaration AS a, variable_declaration AS b WHERE a.getName() != "nope" SELECT a.getName()', len(meth) * len(var)),
+                 ('FROM method_declaration AS a, variable_declaration AS b WHERE a.getName() == "m0_0" SELECT b.getName()', len(var)),
+                 ('FROM method_declaration AS a, variable_declaration AS b WHERE b.getName() == "v1_%d" SELECT a.getName()' % (n - 1), len(meth)),
+                 ("FROM method_declaration AS a, class_declaration AS c, variable_declaration AS b SELECT a.getName()", len(meth) * 2 * len(var) if n <= 36 else None)]
+        for q, want in cases:
+            if want is None:
+                continue
+            for rep in range(2):
+                rr = h.call(op="query-entities", graph="big", q=q, timeout=600)
+                run.count(("large-product", q, rep))
+                stats["large_product_queries"] += 1
+                if rr.get("outcome") != "ok":
+                    run.violation("C02:large-product-abnormal", "a query over %d combinations ends with %s" % (want, rr.get("outcome")), dict(query=q, methods=len(meth), variables=len(var)))
+                    if rr.get("outcome") in ("died", "hang"):
+                        h = C.Harness()
+                        h.call(op="scan", dir=root, graph="big", timeout=300)
+                    continue
+                tuples = collections.Counter(tuple(t) for t in rr["tuples"])
+                dups = sum(c - 1 for c in tuples.values() if c > 1)
+                if dups or sum(tuples.values()) != want:
+                    ex = next((list(t) for t, c in tuples.items() if c > 1), None)
+                    run.violation("C02:large-product-count", "%d combinations qualify, %d are reported (%d of them more than once) for %r" % (want, sum(tuples.values()), dups, q),
+                                  dict(query=q, methods=len(meth), variables=len(var), expected=want, reported=sum(tuples.values()), duplicated=dups, example_duplicate=ex))
+    finally:
+        h.close()
+        shutil.rmtree(root, ignore_errors=True)
+    run.extra["large_products"] = dict(stats)
+
+
 def run(run):
     c01.sweep(run, "C02")
+    large_products(run)
